@@ -306,32 +306,52 @@ example : (encodeM 8 [[1, 2], [3], [4, 5, 6]]).remaining = 7 := by decide
 example : consumeM (encodeM 8 [[1, 2], [3], [4, 5, 6]]) [1, 9, 9, 2] = [2, 1, 2, 3, 4, 5] := by decide
 
 /-- **The error arms of `send_datagram`.** `NotAvailable` and `TooLarge` are handed to the caller as what they
-    are and are NOT connection errors (nothing is stored, the connection goes on); a transport connection error
-    is stored as the connection's error - what the driver and every other handle then report is
-    `convertOrigin` of the FIRST stored error (C05) - and the three answers are pairwise different. -/
-theorem C18_send_error_classes :
-    handleSendError .notAvailable = (.notAvailable, none) ∧
-    handleSendError .tooLarge = (.tooLarge, none) ∧
-    (∀ e, ∃ c, handleSendError (.conn e) = (.conn c, some e)) ∧
-    (∀ a b, (handleSendError a).1 = (handleSendError b).1 → a = b) ∧
-    (∀ a, (handleSendError a).2.isSome ↔ ∃ e, a = .conn e) := by
-  refine ⟨rfl, rfl, fun e => ⟨_, rfl⟩, ?_, ?_⟩
+    are and are NOT connection errors (nothing is offered to the connection's error cell, the connection goes on,
+    whatever the cell holds); a transport connection error is offered to the cell - what the driver and every
+    other handle then report is `convertOrigin` of the FIRST stored error (C05) -; the three classes of answers are
+    pairwise different, and while the connection has no error yet the answer tells which condition it was. -/
+theorem C18_send_error_classes (cell : Option Origin) :
+    handleSendError cell .notAvailable = (.notAvailable, none) ∧
+    handleSendError cell .tooLarge = (.tooLarge, none) ∧
+    (∀ e, ∃ c, handleSendError cell (.conn e) = (.conn c, some e)) ∧
+    (∀ a b, (handleSendError cell a).1 = (handleSendError cell b).1 → a = b ∨ ∃ e e', a = .conn e ∧ b = .conn e') ∧
+    (∀ a b, (handleSendError none a).1 = (handleSendError none b).1 → a = b) ∧
+    (∀ a, (handleSendError cell a).2.isSome ↔ ∃ e, a = .conn e) := by
+  refine ⟨rfl, rfl, fun e => ⟨_, rfl⟩, ?_, ?_, ?_⟩
   · intro a b h
     cases a <;> cases b <;> simp_all [handleSendError]
+  · intro a b h
+    cases a with
+    | notAvailable => cases b <;> simp_all [handleSendError]
+    | tooLarge => cases b <;> simp_all [handleSendError]
+    | conn e =>
+      cases b with
+      | notAvailable => simp_all [handleSendError]
+      | tooLarge => simp_all [handleSendError]
+      | conn e' => cases e <;> cases e' <;> simp_all [handleSendError, cellAfter, convertOrigin]
   · intro a
     cases a <;> simp [handleSendError]
 
-/-- D-18b (open): for an idle timeout the sender's answer is not the connection's outcome - the driver and
-    every other handle say `Timeout`, `send_datagram` says `Remote(Timeout)`. For every other transport
-    condition that is the first error the two agree. -/
-theorem C18_send_error_is_outcome_partial (e : CE) (h : e ≠ .timeout) :
-    (handleSendError (.conn e)).1 = .conn (convertOrigin (.quic e)) := by
-  cases e <;> simp_all [handleSendError, convertOrigin]
+/-- **The sender's answer is the connection's outcome** (D-18b and D-05g, repaired): whatever the connection's error
+    cell holds when the transport refuses a datagram with a connection error `e`, the error in the cell afterwards is
+    the first one - the one that was there, else `e` (`cellAfter`, the `OnceLock`) -, and `send_datagram` answers
+    exactly what the driver, `read_datagram` and every request handle report for it: `convertOrigin` of that winner.
+    So an idle timeout that is the connection's first error is `Timeout` (not `Remote(Timeout)`), and behind an
+    earlier error the sender names that error, not its own. -/
+theorem C18_send_error_is_outcome (cell : Option Origin) (e : CE) :
+    (handleSendError cell (.conn e)).1 = .conn (convertOrigin (cellAfter cell (.quic e))) ∧
+    (cell = none → (handleSendError cell (.conn e)).1 = .conn (convertOrigin (.quic e))) ∧
+    (∀ first, cell = some first → (handleSendError cell (.conn e)).1 = .conn (convertOrigin first)) ∧
+    (handleSendError none (.conn .timeout)).1 = .conn .timeout := by
+  refine ⟨rfl, ?_, ?_, rfl⟩
+  · intro h; subst h; rfl
+  · intro first h; subst h; rfl
 
-theorem C18_D18b_witness :
-    (handleSendError (.conn .timeout)).1 ≠ .conn (convertOrigin (.quic .timeout)) := by decide
-
-example : (handleSendError (.conn (.app 7))).1 = .conn (.remote (.app 7)) := rfl
+example : (handleSendError none (.conn (.app 7))).1 = .conn (.remote (.app 7)) := rfl
+example : (handleSendError none (.conn .timeout)).1 = .conn .timeout := rfl
+example : (handleSendError (some (.internal 0x105)) (.conn .timeout)).1 = .conn (.local_ 0x105) := rfl
+example : (handleSendError (some (.quic (.app 5))) (.conn .timeout)).1 = .conn (.remote (.app 5)) := rfl
+example : (handleSendError (some (.quic .timeout)) .tooLarge) = (.tooLarge, none) := rfl
 
 example : decode [0x01, 0x78, 0x79] = .ok 4 [0x78, 0x79] := by decide
 example : (encode 4 [0x78, 0x79]).view = [0x01, 0x78, 0x79] := by decide
